@@ -345,6 +345,9 @@ func (m *monBase) Combine(sigs ...hotstuff.QuorumSignature) (hotstuff.QuorumSign
 }
 
 func (m *monBase) Verify(sig hotstuff.QuorumSignature, message []byte) error {
+	if m.layer == "outer" && m.nd.w.async {
+		m.nd.w.parkIfBackground(m.nd)
+	}
 	err := m.inner.Verify(sig, message)
 	if m.layer == "outer" {
 		for _, f := range m.nd.w.hooks.onVerify {
